@@ -39,7 +39,7 @@ func wrappedIter(p *Prog, it *types.Named) (string, *types.Named) {
 func hasIntField(it *types.Named, name string) bool {
 	st := it.Underlying().(*types.Struct)
 	for i := 0; i < st.NumFields(); i++ {
-		if st.Field(i).Name() == name && isIntType(st.Field(i).Type()) {
+		if fieldN(it, i) == name && isIntType(st.Field(i).Type()) {
 			return true
 		}
 	}
@@ -560,7 +560,7 @@ func ruleR14(c *Ctx) *RuleResult {
 func hasPtrField(it *types.Named, name string) bool {
 	st := it.Underlying().(*types.Struct)
 	for i := 0; i < st.NumFields(); i++ {
-		if st.Field(i).Name() == name {
+		if fieldN(it, i) == name {
 			_, ok := types.Unalias(st.Field(i).Type()).(*types.Pointer)
 			return ok
 		}
@@ -571,7 +571,7 @@ func hasPtrField(it *types.Named, name string) bool {
 func hasFieldNamed(it *types.Named, name string) bool {
 	st := it.Underlying().(*types.Struct)
 	for i := 0; i < st.NumFields(); i++ {
-		if st.Field(i).Name() == name {
+		if fieldN(it, i) == name {
 			return true
 		}
 	}
